@@ -433,8 +433,13 @@ func (e *kvElection) attemptAcquire(ctx context.Context) error {
 	)
 
 	e.recordAcquireAttempt("success")
-	if e.endSupersededTerm(rev) {
-		e.becomeLeader(token, rev)
+	// Two acquisitions of this instance can be answered at the same moment:
+	// the check and the adoption are separate steps, so the adoption says when
+	// another one has got in between, and the check is made again.
+	for e.endSupersededTerm(rev) {
+		if !e.becomeLeader(token, rev) {
+			break
+		}
 	}
 	return nil
 }
@@ -472,7 +477,12 @@ func (e *kvElection) endSupersededTerm(rev uint64) bool {
 	return true
 }
 
-func (e *kvElection) becomeLeader(token string, rev uint64) {
+// becomeLeader adopts the acquisition that wrote revision rev with token. It
+// reports whether the caller has to look again: the instance turned out to
+// lead already (another acquisition of its own was adopted after the caller's
+// endSupersededTerm), and which of the two writes counts is for
+// endSupersededTerm to say.
+func (e *kvElection) becomeLeader(token string, rev uint64) (again bool) {
 	e.mu.Lock()
 	defer e.mu.Unlock()
 
@@ -480,7 +490,13 @@ func (e *kvElection) becomeLeader(token string, rev uint64) {
 	// complete afterwards. A stopped election must never claim leadership:
 	// nothing would heartbeat the key or ever clear the claim again.
 	if e.ctx == nil || e.ctx.Err() != nil {
-		return
+		return false
+	}
+	if e.isLeader.Load() {
+		return true
+	}
+	if rev < e.revision.Load() {
+		return false // replaced since the caller looked: history
 	}
 
 	fromState := StateInit
@@ -572,6 +588,7 @@ func (e *kvElection) becomeLeader(token string, rev uint64) {
 		// so the term's OnDemote cannot overtake its OnPromote.
 		<-started
 	}
+	return false
 }
 
 func (e *kvElection) attemptPriorityTakeover(ctx context.Context, payloadBytes []byte) error {
@@ -636,8 +653,10 @@ func (e *kvElection) attemptPriorityTakeover(ctx context.Context, payloadBytes [
 		return fmt.Errorf("failed to unmarshal payload after takeover: %w", err)
 	}
 
-	if e.endSupersededTerm(newRev) {
-		e.becomeLeader(newPayloadStruct.Token, newRev)
+	for e.endSupersededTerm(newRev) {
+		if !e.becomeLeader(newPayloadStruct.Token, newRev) {
+			break
+		}
 	}
 	return nil
 }
